@@ -214,7 +214,7 @@ def cmp_c01_code(acc, V, path_kind, fileid, crec, co):
                          expected=json.dumps(a)[:300], observed=json.dumps(b)[:300])
     cc = fields.get("co_consts", ["t", []])
     for c in cc[1]:
-        if c[0] in ("C", "t", "F", "f", "c", "B", "U", "l", "s") or (c[0] == "i" and len(c[1]) > 9):
+        if c[0] in ("C", "t", "F", "f", "c", "B", "U", "l", "s") or (c[0] == "i" and len(c[1]) > 8):
             nontrivial = True
     if nontrivial:
         acc.distinct.add(sha(fields))
